@@ -126,6 +126,11 @@ pub fn sync_is_owed_progress(world: &World, r: &OpRec) -> bool {
     if held {
         return false;
     }
+    // an item that a pipe into the object is still processing (its processing future waits for an event of its own) is work ahead
+    // of the caller as well
+    if world.streams.iter().any(|st| st.obj == Some(o) && st.processed.iter().any(|p| p.2.is_none())) {
+        return false;
+    }
     world.ops.iter().filter(|x| x.id != r.id && x.obj == Some(o) && x.kind.ordered() && matches!(x.outcome, CallOutcome::Returned(_))).all(|x| {
         if x.fin.is_some() {
             return true;
